@@ -5,7 +5,8 @@
 // recursion, key shortcuts, enum rules, allOf, additionalProperties), each compiled as root schema +
 // every type as its own root (itself registered under its own name, as TestSchema_Example does);
 // every schema Check() accepts is examined. (B) plain-JSON schemas with random layout, annotations,
-// notes and rules.
+// notes and rules. (C) histories of Check / Example / Validate calls over 2-4 root schemas that share type OBJECTS
+// and bind the names these refer to differently (shared.go).
 //
 // Known-finding classes are recognised STRUCTURALLY by replaying the example builder on the IR
 // (sim.go): a class is attached only when the builder provably meets the situation of the finding.
@@ -69,6 +70,10 @@ func Run(args []string) {
 		tg.ChildMain()
 		return
 	}
+	if len(args) > 0 && args[0] == "--hchild" {
+		hChildMain()
+		return
+	}
 	for _, a := range args {
 		if strings.HasPrefix(a, "--skip=") {
 			for _, c := range strings.Split(a[7:], ",") {
@@ -76,7 +81,7 @@ func Run(args []string) {
 			}
 		}
 	}
-	rep := vh.NewReport(command, "(A) random type graphs over 1..3 user types: object / array / alias / or-shortcut / literal bodies, required, optional and nullable references, array items, {type} and {or} rules, key shortcuts (string types with regex / length / enum rules; rarely aliased), enum rules via AddRule, allOf, additionalProperties, rarely or-rules on empty containers; root + every type as its own root; only schemas accepted by Check are examined. (B) plain-JSON schemas (depth <= 4, all literal forms, keys with every escape spelling: control characters, DEL, \\u0041, \\/, surrogate pairs; the same spellings occur in property names of (A)) with random layout, rules and notes. nontrivial = (A) the example builder enters at least one user type, (B) the schema has at least one container")
+	rep := vh.NewReport(command, "(A) random type graphs over 1..3 user types: object / array / alias / or-shortcut / literal bodies, required, optional and nullable references, array items, {type} and {or} rules, key shortcuts (string types with regex / length / enum rules; rarely aliased), enum rules via AddRule, allOf, additionalProperties, rarely or-rules on empty containers; root + every type as its own root; only schemas accepted by Check are examined. (B) plain-JSON schemas (depth <= 4, all literal forms, keys with every escape spelling: control characters, DEL, \\u0041, \\/, surrogate pairs; the same spellings occur in property names of (A)) with random layout, rules and notes. (C) histories: 2-4 root schemas sharing type OBJECTS (a chain of 1-3 shared types: objects with required / optional / nullable references, key shortcuts, optional recursion; arrays; aliases; or-shortcuts; scalars ruled by a scalar type; scalars with rules) whose type tables bind the names the shared types mention to different definitions (any kind / shape; integer and string scalar types with different rules, the string one being the key type), equal definitions pooled into one object; all roots built first or one by one; random Check / Example / Validate calls on random roots, finally Example on every root in random order: every Example() of a root Check accepts must be well-formed, accepted by that root's Validate, and (as every other call) give what the same root gives when assembled from completely fresh objects. nontrivial = (A) the example builder enters at least one user type, (B) the schema has at least one container, (C) some shared object is entered by the builder for two accepted roots under which its example differs")
 	seed := vh.Seed()
 	workers := runtime.NumCPU()
 	if workers > 16 {
@@ -126,7 +131,34 @@ func Run(args []string) {
 		mu.Unlock()
 		return evaluate(rep, k, res)
 	})
+	runHistories(rep, seed, workers)
 	rep.Finish()
+}
+
+// runHistories: family (C), see shared.go.
+func runHistories(rep *vh.Report, seed int64, workers int) {
+	hreqs := make(chan *hReq, 4*workers)
+	hists := map[int]*history{}
+	var mu sync.Mutex
+	go func() {
+		defer close(hreqs)
+		nC := vh.Pick(6000, 200000)
+		for i := 0; i < nC; i++ {
+			r := rand.New(rand.NewSource(seed*1000003 + 1517 + int64(i)*7919))
+			h := genHistory(r)
+			mu.Lock()
+			hists[i] = h
+			mu.Unlock()
+			hreqs <- h.request(i)
+		}
+	}()
+	runHistPool(workers, hreqs, func(req *hReq, res hRes) bool {
+		mu.Lock()
+		h := hists[req.ID]
+		delete(hists, req.ID)
+		mu.Unlock()
+		return evaluateHistory(rep, h, res)
+	})
 }
 
 func evaluate(rep *vh.Report, k *kase, res tg.Res) bool {
@@ -147,75 +179,67 @@ func evaluate(rep *vh.Report, k *kase, res tg.Res) bool {
 	g := k.g
 	inh := g.InhabitedTypes()
 	for i, s := range res.Schemas {
-		root := k.roots[i]
-		if s.AddErr != "" {
-			addDiff(rep, vh.Diff{Component: "C15-harness", Input: replay(k, i), Impl: s.AddErr, Model: "generated text loads"})
+		i := i
+		if !examine(rep, g, inh, k.roots[i], k.names[i], i > 0, s, func() string { return replay(k, i) }) {
 			return true
 		}
-		if s.Check != "OK" {
-			rep.Stat("check_rejected")
-			rep.Case(k.names[i]+"\n"+g.Canon(), false)
-			continue
-		}
-		rep.Stat("check_accepted")
-		sm := simulate(g, root, k.names[i], i > 0)
-		rep.Case(k.names[i]+"\n"+g.Canon(), len(sm.entered) > 0)
-		for f := range sm.features {
-			rep.Stat("builder_" + f)
-		}
-		classOf := func() string {
-			switch {
-			case sm.err == "orcontainer":
-				return "K-C15-orcontainer"
-			case sm.uninhabited(g, root, inh):
-				return "K-C15-uninhabited"
-			case sm.keyAlias:
-				return "K-C15-keyalias"
-			case sm.cutOr:
-				return "K-C15-or"
-			case sm.cutArr:
-				return "K-C15-arraycut"
-			case sm.cutReq:
-				return "K-C15-reqcut"
-			}
-			return ""
-		}
-		structural := classOf()
+	}
+	return true
+}
+
+// examine: one schema (root node `root` over the type table of g) against C15: the result of Check / Example() /
+// Validate(Example()) in s. Returns false when the generated text did not even load (harness defect).
+func examine(rep *vh.Report, g *tg.Graph, inh map[string]bool, root *tg.Node, name string, self bool, s tg.SchemaRes, input func() string) bool {
+	if s.AddErr != "" {
+		addDiff(rep, vh.Diff{Component: "C15-harness", Input: input(), Impl: s.AddErr, Model: "generated text loads"})
+		return false
+	}
+	if s.Check != "OK" {
+		rep.Stat("check_rejected")
+		rep.Case(name+"\n"+g.Canon(), false)
+		return true
+	}
+	rep.Stat("check_accepted")
+	sm := simulate(g, root, name, self)
+	rep.Case(name+"\n"+g.Canon(), len(sm.entered) > 0)
+	for f := range sm.features {
+		rep.Stat("builder_" + f)
+	}
+	structural := sm.class(g, root, inh)
+	if structural == "" {
+		rep.Stat("no_known_class_situation")
+	} else {
+		rep.Stat("situation_" + structural)
+	}
+	failed := false
+	fail := func(comp, impl, model string) {
+		failed = true
+		d := vh.Diff{Component: comp, Input: input(), Impl: impl, Model: model, Class: structural}
 		if structural == "" {
-			rep.Stat("no_known_class_situation")
+			rep.Stat("FAIL_unclassified_" + comp)
 		} else {
-			rep.Stat("situation_" + structural)
+			rep.Stat("fail_" + structural)
 		}
-		failed := false
-		fail := func(comp, impl, model string) {
-			failed = true
-			d := vh.Diff{Component: comp, Input: replay(k, i), Impl: impl, Model: model, Class: structural}
-			if structural == "" {
-				rep.Stat("FAIL_unclassified_" + comp)
-			} else {
-				rep.Stat("fail_" + structural)
-			}
-			addDiff(rep, d)
-		}
-		ex := s.Example
-		switch {
-		case s.ExErr != "":
-			fail("C15-wellformed", "Example() error: "+s.ExErr, "Example returns well-formed JSON")
-		case !json.Valid([]byte(ex)):
-			fail("C15-wellformed", fmt.Sprintf("Example() = %q", ex), "encoding/json.Valid")
-		case s.ValEx != "OK":
-			fail("C15-self-valid", fmt.Sprintf("Example() = %s ; Validate(Example()) = %s", ex, s.ValEx), "Validate(Example()) == nil")
-		}
-		if !failed {
-			rep.Stat("example_ok")
-		}
-		// correspondence: the builder as coded
-		if sm.err == "" && s.ExErr == "" && string(sm.out) != ex {
-			addDiff(rep, vh.Diff{Component: "C15-builder-as-coded", Level: "correspondence", Input: replay(k, i), Impl: ex, Model: "replayed builder: " + string(sm.out)})
-		}
-		if (sm.err != "") != (s.ExErr != "") {
-			addDiff(rep, vh.Diff{Component: "C15-builder-as-coded", Level: "correspondence", Input: replay(k, i), Impl: "error: " + s.ExErr, Model: "replayed builder error: " + sm.err})
-		}
+		addDiff(rep, d)
+	}
+	ex := s.Example
+	switch {
+	case s.ExErr != "":
+		fail("C15-wellformed", "Example() error: "+s.ExErr, "Example returns well-formed JSON")
+	case !json.Valid([]byte(ex)):
+		fail("C15-wellformed", fmt.Sprintf("Example() = %q", ex), "encoding/json.Valid")
+	case s.ValEx != "OK":
+		fail("C15-self-valid", fmt.Sprintf("Example() = %s ; Validate(Example()) = %s", ex, s.ValEx), "Validate(Example()) == nil")
+	}
+	if !failed {
+		rep.Stat("example_ok")
+	}
+	// correspondence: the builder as coded
+	if sm.err == "" && s.ExErr == "" && string(sm.out) != ex {
+		addDiff(rep, vh.Diff{Component: "C15-builder-as-coded", Level: "correspondence", Input: input(), Impl: ex, Model: "replayed builder: " + string(sm.out)})
+	}
+	if (sm.err != "") != (s.ExErr != "") {
+		addDiff(rep, vh.Diff{Component: "C15-builder-as-coded", Level: "correspondence", Input: input(), Impl: "error: " + s.ExErr, Model: "replayed builder error: " + sm.err})
 	}
 	return true
 }
